@@ -530,10 +530,13 @@ pub fn run_sequence(rng: &mut Rng, rep: &mut Report) {
             }
             _ => false,
         };
-        if !same(&r0, &r1) {
+        if exp != Expect::Unspecified && !same(&r0, &r1) {
             rep.violation("C18.differential.stdin-vs-socket-entry", format!("line {:?}: dispatch answered {:?}, dispatch_async answered {:?}", line.chars().take(160).collect::<String>(), r0.as_deref().map(|s| s.chars().take(200).collect::<String>()), r1.as_deref().map(|s| s.chars().take(200).collect::<String>())));
         }
-        if exp_ctx == exp && !same(&r0, &r2) {
+        // the context-carrying entry point legitimately differs for the subscription methods (whatever the
+        // rest of the line looks like) and for lines of unspecified shape
+        let names_subscription_method = line.contains("subscribe") || line.contains("get_subscription_count");
+        if exp_ctx == exp && exp != Expect::Unspecified && !names_subscription_method && !same(&r0, &r2) {
             rep.violation("C18.differential.stdin-vs-socket-entry", format!("line {:?}: dispatch answered {:?}, dispatch_async with a subscription context answered {:?}", line.chars().take(160).collect::<String>(), r0.as_deref().map(|s| s.chars().take(200).collect::<String>()), r2.as_deref().map(|s| s.chars().take(200).collect::<String>())));
         }
         // effect: snapshot and a following get_status equal the model, on every entry point
@@ -695,7 +698,7 @@ pub fn run_process_lane(cfg: &RunCfg, rep: &mut Report) {
         return;
     }
     let mut rng = Rng::derive(cfg.seed, &[0xC18, 3]);
-    let rounds = cfg.cases(4, 60);
+    let rounds = cfg.cases(4, 110);
     for round in 0..rounds {
         let sock = format!("/tmp/verif-c18-{}-{}.sock", std::process::id(), round);
         let _ = std::fs::remove_file(&sock);
@@ -935,7 +938,8 @@ pub fn run(cfg: &RunCfg) -> Report {
     let mut c2 = cfg.clone();
     c2.threads = 2;
     rep.merge(run_cases(&c2, 1, cc, Duration::from_secs(3600), |_c, rng, rep| run_concurrent(rng, rep)));
-    if cfg.replay_case.is_none() {
+    // the process lane has real-time deadlines (5 s per answer): not meaningful under a 10-50x tool slow-down
+    if cfg.replay_case.is_none() && cfg.lane.is_none() {
         run_process_lane(cfg, &mut rep);
     }
     rep
